@@ -3,6 +3,8 @@ package checks
 import (
 	"encoding/json"
 	"fmt"
+	"os"
+	"strings"
 
 	"verif/harness/vc"
 )
@@ -85,6 +87,9 @@ func init() {
 				bound = 3
 			}
 			for _, s := range scns(ctx.Thorough()) {
+				if only := os.Getenv("VERIF_ONLY"); only != "" && !strings.Contains(s.Name, only) {
+					continue // debugging aid: restrict to scenarios whose name contains VERIF_ONLY
+				}
 				if ctx.Expired() || rep.TooMany() {
 					rep.Truncated = rep.Truncated || ctx.Expired()
 					return
